@@ -194,7 +194,11 @@ static void c20_run(const Case &c, Result &r) {
       case 2: { mpq_QSprob q = mpq_QSread_prob("no_such_file.lp.gz", "LP"); if (q) mpq_QSfree_prob(q); what = "QSread_prob(missing,.gz)"; failing_call_seen = true; break; }
       case 3: { mpq_QSwrite_prob(p, "c20_out.lp", "LP"); what = "QSwrite_prob(LP)"; break; }
       case 4: { mpq_QSwrite_prob(p, "c20_out.mps", "MPS"); what = "QSwrite_prob(MPS)"; break; }
-      case 5: { mpq_QSwrite_prob(p, "c20_out.xyz", "XYZ"); what = "QSwrite_prob(bad type)"; failing_call_seen = true; break; }
+      case 5: {
+        if (salt % 2) { mpq_QSwrite_prob(p, "c20_out.xyz", "XYZ"); what = "QSwrite_prob(bad type)"; }
+        else { mpq_QSwrite_prob(p, "no_such_directory/out.lp", salt % 4 ? "LP" : "MPS"); mpq_QSwrite_basis(p, nullptr, "no_such_directory/out.bas"); what = "QSwrite_prob(unopenable path)"; }
+        failing_call_seen = true; break;
+      }
       case 6: { QSbasis *B = mpq_QSread_basis(p, "no_such_file.bas"); if (B) mpq_QSfree_basis(B); what = "QSread_basis(missing)"; failing_call_seen = true; break; }
       case 7: { mpq_QSwrite_basis(p, nullptr, "c20_out.bas"); what = "QSwrite_basis(own)"; break; }
       default: {
